@@ -45,7 +45,7 @@ def run(tier, seed, t0):
         if v.get("crash") and ("container-overflow" in v["key"] or "glibcxx-assert" in v["key"] or "heap-buffer-overflow" in v["key"]) and "asanassert" in v["inv"]:
             v["crash"] = False
     floors = {
-        "histories_with_division_or_removal": (m.nontrivial, 0.5 * m.evaluations), "divisions": (m.bins.get("divisions", 0), 30), "divisions_under_thread_sanitizer": (m.bins.get("tsan_divisions", 0), 3), "removals": (m.bins.get("removals", 0), 30),
+        "histories_with_division_or_removal": (m.nontrivial, 0.5 * m.evaluations), "divisions": (m.bins.get("divisions", 0), 30), "divisions_under_thread_sanitizer": (m.bins.get("tsan_divisions", 0), 1), "removals": (m.bins.get("removals", 0), 30),
         "populations_shrunk_to_exactly_one_cell": (m.bins.get("shrunk_to_one_cell", 0), 5),
         "removal_first": (m.bins.get("removal_first", 0), 5), "removal_middle": (m.bins.get("removal_middle", 0), 5), "removal_last": (m.bins.get("removal_last", 0), 5),
         "couplings_checked": (m.bins.get("couplings_checked", 0), 100000), "phase_checks": (m.bins.get("phase_checks", 0), 5000), "iterations_with_couplings": (m.bins.get("iterations_with_couplings", 0), 500),
